@@ -90,11 +90,26 @@ func ProfileFor(prop string) *Profile {
 		p.PCrash = 0.04
 		p.PShutdown = 0.25
 	case "C07":
-		only(p, map[string]int{"CreatePromise": 15, "CreatePromiseAndTask": 8, "CompletePromise": 8, "CreateCallback": 5, "CreateSubscription": 3, "ClaimTask": 30, "CompleteTask": 15, "HeartbeatTasks": 12})
+		only(p, map[string]int{"CreatePromise": 8, "CreatePromiseAndTask": 6, "CompletePromise": 3, "CreateCallback": 4, "CreateSubscription": 2, "ClaimTask": 40, "CompleteTask": 15, "HeartbeatTasks": 14})
 		p.PRouted = 0.9
 		p.PBoundary = 0.5
 		p.PHandoff = 0.15
+		p.PTiny = 0.1
+		p.PFaultRun = 0.3
+		p.Prologue = "tasks"
+		p.PFine = 0.6
+		p.PLazyOnly = 0
+		p.PTimeoutTg = 0.1
+		p.Promises = []string{"p0", "p1", "p2"}
+		p.TimeoutRel = []int64{2000, 20000, 60000, 10_000_000, 10_000_000}
+		p.FineTimeoutRel = []int64{5, 30, 100, 1000, 10000, 10000}
 	case "C08":
+		p.Prologue = "tasks"
+		p.PTiny = 0.15
+		p.PFine = 0.5
+		p.PLazyOnly = 0
+		p.TimeoutRel = []int64{0, 500, 2000, 20000, 60000, 10_000_000}
+		p.FineTimeoutRel = []int64{0, 3, 10, 30, 100, 1000, 10000}
 		only(p, map[string]int{"CreatePromise": 25, "CreatePromiseAndTask": 10, "CompletePromise": 15, "CreateCallback": 10, "CreateSubscription": 10, "ClaimTask": 15, "CompleteTask": 8, "HeartbeatTasks": 3})
 		p.PRouted = 0.7
 		p.PHandoff = 0.4
@@ -124,6 +139,11 @@ func ProfileFor(prop string) *Profile {
 		p.MaxSteps = 200
 		p.PRouted = 0.1
 	case "C19":
+		p.Prologue = "tasks"
+		p.PTiny = 0.1
+		p.PLazyOnly = 0
+		p.TimeoutRel = []int64{500, 2000, 20000, 60000, 10_000_000}
+		p.FineTimeoutRel = []int64{3, 10, 30, 100, 1000, 10000}
 		only(p, map[string]int{"CreatePromise": 30, "CompletePromise": 15, "CreateCallback": 15, "CreateSubscription": 15, "ClaimTask": 6})
 		p.PRouted = 0.9
 		p.PHandoff = 0.4
